@@ -45,12 +45,13 @@ func (ip *indexPersist) prepare(start int) func() error {
 		ip.p.Lock()
 		defer ip.p.Unlock()
 
-		err := ip.p.Truncate(int64(lenOfPointers) * pointerByteSize)
-		if err != nil {
+		// Write the dirty pointers before adjusting the file length: growing the
+		// file first would leave zero-filled pointer records on disk if the process
+		// dies before the write, which hides every stored domain after reopening.
+		if _, err := ip.p.WriteAt(pointerEncoded, int64(start*pointerByteSize)); err != nil {
 			return err
 		}
-		_, err = ip.p.WriteAt(pointerEncoded, int64(start*pointerByteSize))
-		return err
+		return ip.p.Truncate(int64(lenOfPointers) * pointerByteSize)
 	}
 }
 
